@@ -152,7 +152,7 @@ def _minmax(name, a, is_min, axis=None, skipnan=False):
         nfn, fwd = a.storage.nan, a.fwd
         nanfn = lambda *idx: nfn(fwd(idx))
     # small concrete arrays without masks: fold directly (exact, no quantifiers)
-    if mfn is None and nanfn is None and all(s is not None for s in sizes) and _prod([int(s) for s in sizes]) <= 8:
+    if mfn is None and nanfn is None and all(s is not None for s in sizes) and _prod([int(s) for s in sizes]) <= (4096 if c.crossexec else 8):
         import itertools
 
         idxs = list(itertools.product(*[range(int(s)) for s in sizes]))
@@ -215,7 +215,7 @@ def _quantified_bool(name, a, want_any):
         snap = snap0
     dims = a.shape
     sizes = [concrete_value(n) for n in dims]
-    if all(s is not None for s in sizes) and _prod([int(s) for s in sizes]) <= 8:
+    if all(s is not None for s in sizes) and _prod([int(s) for s in sizes]) <= (4096 if c.crossexec else 8):
         import itertools
 
         vals = [snap(*ix) for ix in itertools.product(*[range(int(s)) for s in sizes])]
@@ -374,6 +374,9 @@ class _NP:
                 c.oblige("empty.nonneg[%s]" % c.fresh_name("e"), n >= 0, kind="domain")
         if k == "O":
             return new_array(shape, lambda idx: None, "O")
+        if c.crossexec:
+            z = {"f": 0.0, "i": 0, "b": False}[k]
+            return new_array(shape, lambda idx: z, k)
         junk = havoc_array("uninit", shape, k)
         junk.storage.owner = "fresh"
         return junk
@@ -823,6 +826,8 @@ def spec_trig(name, v):
     c = ctx()
     v = _numeric(v)
     r = spec_fn(name, v)
+    if not is_sym(r):
+        return r
     if not is_sym(v):
         if v == 0:
             return 0.0 if name == "sin" else 1.0
@@ -837,6 +842,8 @@ def spec_hypot(x, y):
     c = ctx()
     x, y = _numeric(x), _numeric(y)
     r = spec_fn("hypot", x, y)
+    if not is_sym(r):
+        return r
     c.assume(and_(r >= 0, r * r == x * x + y * y))
     c.used_axioms.add("hypot(x,y) >= 0 and hypot(x,y)^2 = x^2 + y^2")
     return r
@@ -847,6 +854,8 @@ def spec_arctan2(y, x):
     c = ctx()
     y, x = _numeric(y), _numeric(x)
     a = spec_fn("arctan2", y, x)
+    if not is_sym(a):
+        return a
     h = spec_fn("hypot", x, y)
     c.assume(and_(h >= 0, h * h == x * x + y * y))
     c.assume(and_(spec_fn("cos", a) * h == x, spec_fn("sin", a) * h == y))
